@@ -33,6 +33,7 @@ pub struct Profile {
     pub w_idle_nd: u32, // percent of transactions that are an idle non-durable commit followed by begin_read
     pub w_cursor: u32,  // percent of normal-table operations that are a gap-cursor session (needs --features cursor)
     pub w_par: u32,     // percent of write transactions that begin with a multi-threaded section
+    pub w_predpanic: u32, // percent of retain / extract steps whose predicate panics after a few calls
 }
 
 impl Profile {
@@ -60,6 +61,7 @@ impl Profile {
             w_idle_nd: 0,
             w_cursor: 0,
             w_par: 0,
+            w_predpanic: 0,
         };
         match name {
             "table" => base,
@@ -99,6 +101,7 @@ impl Profile {
                 w_reopen: 1,
                 w_acct: 100,
                 w_settle: 2,
+                w_predpanic: 25,
                 ..base
             },
             "reader" => Profile {
@@ -381,6 +384,9 @@ impl Gen {
 
     fn pred(&self, rng: &mut StdRng) -> J {
         let m = rng.random_range(1..6u32);
+        if rng.random_range(0..100) < self.p.w_predpanic {
+            return json!({"m": m, "r": rng.random_range(0..m), "panic_at": rng.random_range(0..6)});
+        }
         json!({"m": m, "r": rng.random_range(0..m)})
     }
 
@@ -462,6 +468,16 @@ impl Gen {
                 return json!({"e": "rcursor", "src": "w", "n": n, "b": self.bound(rng, &n), "upper": rng.random_range(0..2) == 0, "ops": self.rcursor_ops(rng)});
             }
             return self.cursor_session(rng, &n, &vt);
+        }
+        if rng.random_range(0..300) < self.p.w_predpanic {
+            // retain / extract_if whose predicate panics after a few calls (C05)
+            let m = rng.random_range(1..4u32);
+            let p = json!({"m": m, "r": rng.random_range(0..m), "panic_at": rng.random_range(0..5)});
+            return if rng.random_range(0..2) == 0 {
+                json!({"e": "retain", "n": n, "lo": {"t": "u"}, "hi": {"t": "u"}, "p": p})
+            } else {
+                json!({"e": "extract", "n": n, "lo": {"t": "u"}, "hi": {"t": "u"}, "p": p, "cnt": 1000, "rev": rng.random_range(0..2) == 0, "alt": false})
+            };
         }
         let k = self.key(rng, &n);
         match rng.random_range(0..100) {
@@ -934,6 +950,15 @@ impl Gen {
                 "delete" if okr => {
                     self.known.remove(ev["a"].as_str().unwrap());
                     self.pop.remove(ev["a"].as_str().unwrap());
+                }
+                "predpanic" => {
+                    // nothing more to be learnt from this transaction: close the handles and end it
+                    self.queue.clear();
+                    for n in self.open.keys() {
+                        self.queue.push_back(json!({"e": "close", "n": n}));
+                    }
+                    self.queue.push_back(json!({"e": if (self.ctr + self.vctr) % 3 == 0 { "abort" } else { "commit" }}));
+                    self.wtx_ops = u32::MAX / 2;
                 }
                 "cur_open" => {
                     self.cur_n = ev["n"].as_str().map(|s| s.to_string());
